@@ -1,7 +1,7 @@
 (* C10 — shape of the generated cases and the two executable verdicts. No proofs. *)
 From Coq Require Import Uint63.
 From VLib Require Import CaseLib.
-From C10 Require Import Model ModelMeta Spec.
+From C10 Require Import Model ModelMeta Spec ModelOwn.
 (* gen-* cases (validation of the translator go2coq) *)
 From VLib Require GoSem.
 From C10 Require GenCase.
@@ -73,7 +73,21 @@ Inductive case :=
 | CBulk (brk eager : bool) (B : nat) (now drift fdrift : Z) (body : list N) (tbl : list (list N * docinfo)) (r : impl)
 (* gen-<func>: the REAL Go function number fn (GenCase.gen_eval) was called on args and returned impl (or
    panicked); the model side is the definition GENERATED from the Go source by go2coq (Gen.v) *)
-| CGen (fn : N) (args : list (list Z)) (impl : GoSem.gres).
+| CGen (fn : N) (args : list (list Z)) (impl : GoSem.gres)
+(* exit-path: one call of the REAL Ingestor.ProcessDocuments along the path q (limit: MaxInflightBulks exceeded; ctx: the
+   select took <-ctx.Done(), as observed; its / fin: what readNext delivered; store_ok: what the StorageClient answered).
+   err / total = what the call returned; obs = after the call, how many times the objects this call took lie in
+   [compressorPool; binaryDocsPool; binaryMetasPool; procPool] (all four drained empty before the call, one P, no GC in
+   between), then how many rate-limit tickets are missing *)
+| CPath (q : req) (err : bool) (total : nat) (obs : list nat)
+(* single-mode: REAL bulk.Ingestor -> SeqDBClient -> storeapi in-memory client -> store with ONE index worker that is let
+   through one queued block per `false` of the schedule; `true` = the next bulk (a complete ProcessDocuments call);
+   afterwards the store is waited idle and every ID of every bulk is fetched *)
+| CSingle (bs : list bulk) (sched : list bool) (fetched : list (list (option (list N)))).
+
+Definition pool_objs : list obj := [OComp; OBinDocs; OBinMetas; OProc].
+Definition opt_bytes_eqb (a b : option (list N)) : bool :=
+  match a, b with Some x, Some y => bytes_eqb x y | None, None => true | _, _ => false end.
 
 Definition stored_eqb (a b : list N * (Z * nat)) : bool :=
   bytes_eqb (fst a) (fst b) && Z.eqb (fst (snd a)) (fst (snd b)) && Nat.eqb (snd (snd a)) (snd (snd b)).
@@ -86,6 +100,11 @@ Definition case_agrees1 (c : case) : bool :=
   match c with
   | CHist _ => true
   | CGen fn args impl => GoSem.gres_eqb (GenCase.gen_eval fn args) impl
+  | CPath q err total obs =>
+      Bool.eqb (fst (pd_result q)) err && Nat.eqb (snd (pd_result q)) total
+      && list_eqb Nat.eqb obs (map (fun o => count_put o (code_pd q)) pool_objs
+                                 ++ [count_get OTicket (code_pd q) - count_put OTicket (code_pd q)])
+  | CSingle bs sched fetched => list_eqb (list_eqb opt_bytes_eqb) (single_fetch true bs sched) fetched
   | CMeta m bytes un => bytes_eqb (marshal_meta m) bytes && uclass_eqb (unmarshal_meta bytes) un
   | CMetaBytes b un => uclass_eqb (unmarshal_meta b) un
   | CMetaPayload payload ms =>
@@ -118,6 +137,15 @@ Definition case_spec_ok1 (c : case) : bool :=
   match c with
   | CHist _ => true
   | CGen _ _ _ => true   (* translator validation: correspondence only *)
+  (* no pooled object lies in its pool twice (it would be handed to two requests), no ticket is lost *)
+  | CPath q err total obs =>
+      match obs with
+      | [c; d; m; p; t] => Nat.leb c 1 && Nat.leb d 1 && Nat.leb m 1 && Nat.leb p 1 && Nat.eqb t 0
+      | _ => false
+      end
+  (* every accepted document is fetched by its ID with its own bytes *)
+  | CSingle bs sched fetched =>
+      list_eqb (list_eqb opt_bytes_eqb) fetched (map (fun b => map (fun p => Some (snd p)) b) bs)
   | CMeta m _ un => match un with KOk m' => meta_eqb m m' | _ => false end    (* what was written is read back *)
   | CMetaBytes _ _ => true
   | CMetaPayload _ _ => true
